@@ -21,14 +21,15 @@ def qc():
     return nn_states
 
 
-def new_state(kind, nv, nh=None, na=None, unitary_dict=None, module=None):
+def new_state(kind, nv, nh=None, na=None, unitary_dict=None, module=None, gpu=False):
+    """gpu=True is legal on this CPU-only machine: the documented behaviour is a warning and a CPU model."""
     ns = qc()
     if kind == "positive":
-        return ns.PositiveWaveFunction(nv, nh, gpu=False, module=module)
+        return ns.PositiveWaveFunction(nv, nh, gpu=gpu, module=module)
     if kind == "complex":
-        return ns.ComplexWaveFunction(nv, nh, unitary_dict=unitary_dict, gpu=False, module=module)
+        return ns.ComplexWaveFunction(nv, nh, unitary_dict=unitary_dict, gpu=gpu, module=module)
     if kind == "density":
-        return ns.DensityMatrix(nv, nh, na, unitary_dict=unitary_dict, gpu=False, module=module)
+        return ns.DensityMatrix(nv, nh, na, unitary_dict=unitary_dict, gpu=gpu, module=module)
     raise ValueError(kind)
 
 
